@@ -310,7 +310,7 @@ func init() {
 		},
 		Rule: "random digraphs through the VerifGraph alias: 1-10 vertices, densities 0-1, weights 0-9 incl. zero-weight cycles, self-loops, edges re-added with a changed weight, int/string/struct/hashable-pointer vertices; every graph searched from every source, R times (map order); " +
 			"oracle: Floyd-Warshall on the harness's adjacency matrix — every reachable vertex has the exact distance and a predecessor path made of existing edges from the source whose weights sum to it; an unreachable vertex's predecessor chain never meets the source. " +
-			"One case in 10 instead checks the non-negative graphs the resolver really searches (reach.path hook: the chosen path is a real path of minimum weight per Bellman-Ford). The thorough tier additionally enumerates ALL digraphs on <= 3 vertices with weights {absent,0,1,2} (262 404 graphs, every source). " +
+			"One case in six is a HISTORY on one graph object and its reversed views: searches from random sources interleaved with edge (re-)weighting, removal and vertex detachment through either handle, each search compared with the reference of that moment. One case in 10 instead checks the non-negative graphs the resolver really searches (reach.path hook: the chosen path is a real path of minimum weight per Bellman-Ford). The thorough tier additionally enumerates ALL digraphs on <= 3 vertices with weights {absent,0,1,2} (262 404 graphs, every source). " +
 			"non-trivial = >= 3 vertices and >= 2 edges",
 		Assumptions: []string{"non-negative weights only (the property's precondition); the resolver's re-weighted copies with a negative weight are skipped by the live-graph monitor"},
 		Run:         runC18,
@@ -350,6 +350,9 @@ func runC18(c *CaseCtx) (res CaseResult) {
 	}
 	if c.Idx%10 == 9 {
 		return runLiveGraph(c, r, "C18")
+	}
+	if c.Idx%6 == 1 {
+		return runC18History(c, r)
 	}
 	ref := randomRef(r, 10)
 	if c.Idx%8 == 3 {
@@ -1185,5 +1188,106 @@ func runC20(c *CaseCtx) (res CaseResult) {
 		res.obs("acyclic_graphs", 1)
 	}
 	res.Sample = map[string]interface{}{"graph": ref.String(), "vertex_kind": vm.kind}
+	return res
+}
+
+
+// runC18History: searches interleaved with mutations on ONE graph object and
+// its reversed views — every search must reflect the graph as it is at that
+// moment (no state may survive from an earlier search or be cached behind a
+// view).
+func runC18History(c *CaseCtx, r *rand.Rand) (res CaseResult) {
+	ref := randomRef(r, 7)
+	vm := &vertexMaker{kind: r.Intn(4)}
+	g, vs := buildGraph(ref, vm, r)
+	n := ref.n
+	var trace []string
+	det := func() interface{} {
+		return map[string]interface{}{"graph_now": ref.String(), "vertex_kind": vm.kind, "history": strings.Join(trace, " ; ")}
+	}
+	defer func() {
+		if p := recover(); p != nil {
+			res.violate("C18", "panic/"+crashKey(fmt.Sprint(p)), fmt.Sprintf("search history panicked: %v", p), det())
+		}
+	}()
+	rv := g.Reverse()
+	// the reversed reference
+	rev := func() *refGraph {
+		t := newRef(n)
+		for i := 0; i < n; i++ {
+			for j := 0; j < n; j++ {
+				t.w[j][i] = ref.w[i][j]
+			}
+		}
+		return t
+	}
+	nops := 4 + r.Intn(16)
+	searches := 0
+	for k := 0; k < nops; k++ {
+		switch op := r.Intn(6); {
+		case op <= 2: // search through the graph, the kept view, or a fresh view
+			src := r.Intn(n)
+			before := len(res.Violations)
+			switch r.Intn(3) {
+			case 0:
+				trace = append(trace, fmt.Sprintf("g.Dijkstra(%d)", src))
+				checkDijkstra(g, ref, vs, vm, src, ref.floyd(), &res, "C18", det)
+			case 1:
+				trace = append(trace, fmt.Sprintf("view.Dijkstra(%d)", src))
+				rr := rev()
+				checkDijkstra(rv, rr, vs, vm, src, rr.floyd(), &res, "C18", det)
+			default:
+				trace = append(trace, fmt.Sprintf("g.Reverse().Dijkstra(%d)", src))
+				rr := rev()
+				checkDijkstra(g.Reverse(), rr, vs, vm, src, rr.floyd(), &res, "C18", det)
+			}
+			searches++
+			res.Evals++
+			if len(res.Violations) > before {
+				for i := before; i < len(res.Violations); i++ {
+					res.Violations[i].Key = "history/" + res.Violations[i].Key
+				}
+				res.Key = strings.Join(trace, ";")
+				return res
+			}
+		case op == 3: // (re-)weight or add an edge, through either handle
+			a, b, w := r.Intn(n), r.Intn(n), r.Intn(10)
+			if r.Intn(2) == 0 {
+				g.AddEdgeWeighted(vs[a], vs[b], w)
+				trace = append(trace, fmt.Sprintf("g.AddEdgeWeighted(%d,%d,%d)", a, b, w))
+			} else {
+				rv.AddEdgeWeighted(vs[b], vs[a], w)
+				trace = append(trace, fmt.Sprintf("view.AddEdgeWeighted(%d,%d,%d)", b, a, w))
+			}
+			ref.w[a][b] = w
+		case op == 4: // remove an edge
+			a, b := r.Intn(n), r.Intn(n)
+			if r.Intn(2) == 0 {
+				g.RemoveEdge(vs[a], vs[b])
+				trace = append(trace, fmt.Sprintf("g.RemoveEdge(%d,%d)", a, b))
+			} else {
+				rv.RemoveEdge(vs[b], vs[a])
+				trace = append(trace, fmt.Sprintf("view.RemoveEdge(%d,%d)", b, a))
+			}
+			ref.w[a][b] = -1
+		default: // detach all edges of a vertex (remove and re-add it)
+			v := r.Intn(n)
+			g.Remove(vs[v])
+			g.Add(vs[v])
+			for j := 0; j < n; j++ {
+				ref.w[v][j], ref.w[j][v] = -1, -1
+			}
+			trace = append(trace, fmt.Sprintf("g.Remove(%d);g.Add(%d)", v, v))
+		}
+	}
+	res.Key = strings.Join(trace, ";")
+	res.NonTrivial = searches >= 2
+	res.obs("search_histories", 1)
+	res.obs("searches_in_histories", int64(searches))
+	tr := trace
+	if len(tr) > 12 {
+		tr = tr[:12]
+	}
+	res.Sample = map[string]interface{}{"history": strings.Join(tr, " ; "), "vertex_kind": vm.kind}
 	return res
 }
